@@ -42,6 +42,10 @@ type C18Scenario struct {
 	// ViaFile: the judged bytes are what WriteToFile leaves in a file that existed before and
 	// held a longer message.
 	ViaFile bool `json:"viaFile,omitempty"`
+	// Relayed: the judged bytes are the render of a Msg that was parsed (EMLToMsgFromString) from
+	// the stored first render after two relays put their (correctly folded) trace fields in
+	// front of it — a received message that is generated again.
+	Relayed bool `json:"relayed,omitempty"`
 }
 
 type c18 struct{}
@@ -277,6 +281,7 @@ func (p *c18) Gen(seed uint64, i int, tier string) (any, bool) {
 		sc.PreFailAt = 200 + r.Intn(3000)
 	}
 	sc.ViaFile = !sc.ReEnc && r.Chance(1, 8)
+	sc.Relayed = !sc.ReEnc && !sc.ViaFile && i%9 == 4
 	for k := 0; k < m.producerCount(); k++ {
 		sc.Chunks2 = append(sc.Chunks2, GenChunks(r))
 	}
@@ -404,6 +409,18 @@ func decodeHeader(raw string) (string, error) {
 	return dec.DecodeHeader(raw)
 }
 
+// relayTrace: what two relays and a filter put in front of a message, folded as they should be.
+const relayTrace = "Received: from mx1.origin.example (mx1.origin.example [192.0.2.10])\r\n" +
+	"\tby inbound.dest.example (Postfix) with ESMTPS id 4F3A92C0D1E7\r\n" +
+	"\tfor <recipient-with-a-long-name@dest.example>; Wed, 01 Jan 2025 10:00:03 +0000 (UTC)\r\n" +
+	"Received: from client.origin.example (client.origin.example [198.51.100.77])\r\n" +
+	"\tby mx1.origin.example (Postfix) with ESMTPSA id 9B1C4D2E3F5A6\r\n" +
+	"\tfor <recipient-with-a-long-name@dest.example>; Wed, 01 Jan 2025 10:00:01 +0000 (UTC)\r\n" +
+	"X-Spam-Report: score=0.1 required=5.0 tests=DKIM_SIGNED,DKIM_VALID,DKIM_VALID_AU,\r\n" +
+	"\tHTML_MESSAGE,SPF_PASS,T_SCC_BODY_TEXT_LINE autolearn=ham autolearn_force=no\r\n" +
+	"X-Spam-Report: second filter, score=0.0 required=6.3 tests=ALL_TRUSTED,BAYES_00,\r\n" +
+	"\tKAM_DMARC_STATUS,URIBL_BLOCKED autolearn=unavailable version=4.0.0\r\n"
+
 func (p *c18) render(t *testing.T, sc *C18Scenario, alt bool) ([]byte, error, any, string) {
 	spec := sc.Msg.clone()
 	if alt {
@@ -434,6 +451,16 @@ func (p *c18) render(t *testing.T, sc *C18Scenario, alt bool) ([]byte, error, an
 			return
 		}
 		data, err = Render(b.Msg)
+		if err == nil && sc.Relayed {
+			stored := relayTrace + string(data)
+			m2, perr := mail.EMLToMsgFromString(stored)
+			if perr != nil {
+				err = fmt.Errorf("build: the stored message does not parse: %w", perr)
+				return
+			}
+			data, err = Render(m2)
+			return
+		}
 		if err == nil && sc.ReEnc {
 			// the caller changes the files' encodings after a first render and renders again:
 			// whatever encoding each file is announced with then, its body must follow it
@@ -482,6 +509,11 @@ func (p *c18) Exec(t *testing.T, scAny any) Outcome {
 	var problems []string
 	walkMIME(a, "", &leaves, &problems, 0)
 	for _, pr := range problems {
+		if sc.Relayed {
+			// what the parser keeps of a message's structure is not this property's subject
+			out.stat("not-judged.structure-of-a-parsed-message", 1)
+			continue
+		}
 		out.violate("C18:structure", "%s", pr)
 	}
 	for _, lf := range leaves {
@@ -507,6 +539,14 @@ func (p *c18) Exec(t *testing.T, scAny any) Outcome {
 			}
 			out.stat("bodies."+lf.cte, 1)
 		}
+	}
+	if sc.Relayed {
+		// only the line discipline of what is generated is judged: which header fields and
+		// values survive the parser is not this property's subject
+		out.stat("probe.parsed-message-generated-again", 1)
+		out.Key = fmt.Sprintf("relayed|%s|%d|%d", shapeSig(sc.Msg), len(a), len(leaves))
+		out.Nontrivial = true
+		return out
 	}
 	// header values unfold and decode to what was set
 	top, _ := splitEntity(a)
@@ -604,7 +644,7 @@ func (p *c18) Shrink(scAny any) []any {
 
 func (p *c18) Info() PropInfo {
 	return PropInfo{
-		Rule: "seeded search: message with generated Subject/custom header/Organization/display name values (word lengths 0..300, runs of blanks, leading/trailing blanks, non-ASCII needing RFC 2047), 1..2 body parts and 0..2 files with content lengths around multiples of 3/57/76 (+-3) and random, CRLF / bare LF / bare CR / trailing-blank line ends, all transfer encodings, on single-level shapes a caller-chosen boundary of 1..70 characters, a sixth of the renders after a broken-off render of the same shape, an eighth through WriteToFile over an older and longer file, file sources writer/read-seeker/fs.FS; each message is rendered under two independently drawn chunkings per producer {single write, 1 byte, 3, 57, 76, primes and off-by-one sizes, random mixes}; every run is non-trivial; distinct = distinct (shape signature, output length, number of MIME leaves)",
+		Rule: "seeded search: message with generated Subject/custom header/Organization/display name values (word lengths 0..300, runs of blanks, leading/trailing blanks, non-ASCII needing RFC 2047), 1..2 body parts and 0..2 files with content lengths around multiples of 3/57/76 (+-3) and random, CRLF / bare LF / bare CR / trailing-blank line ends, all transfer encodings, on single-level shapes a caller-chosen boundary of 1..70 characters, a sixth of the renders after a broken-off render of the same shape, an eighth through WriteToFile over an older and longer file, file sources writer/read-seeker/fs.FS; each message is rendered under two independently drawn chunkings per producer {single write, 1 byte, 3, 57, 76, primes and off-by-one sizes, random mixes}; every run is non-trivial; distinct = distinct (shape signature, output length, number of MIME leaves); a ninth of the scenarios judge the render of a Msg parsed back (EMLToMsgFromString) from the stored first render with two relays' folded trace fields and repeated filter fields in front of it (line discipline only)",
 		Assumptions: []string{"8bit and 7bit bodies are passed through by contract and not judged for line length (7bit parts are QP-encoded by go-mail and then carry that discipline only if labelled so)",
 			"a header line longer than 78 is accepted when, trimmed, it contains no blank (single token)",
 			"header values are compared after RFC 2047 decoding with mime.WordDecoder and whitespace normalisation"},
